@@ -143,6 +143,8 @@ def labels(case):
         out.append('no-ports')
     if case.get('cross'):
         out.append('cross-prefix')
+    if spec.get('_prior'):
+        out.append('after-%d-earlier-builds' % len(spec['_prior']))
     return out + ['feat:' + f for f in sm.get('features', []) if f in ('empty_itf', 'system_enc',
                                                                        'multi_id_ns')]
 
@@ -163,7 +165,10 @@ def strata():
                      gen_cfg.model_and_spec(force=['prefix_ns', 'deep_ns'], shadow=True),
                      gen_cfg.model_and_spec(force=['deep_ns', 'same_name_siblings'], shadow=True),
                      gen_cfg.model_and_spec(force=['deep_ns', 'ref_extern', 'prefix_ports'], want_mc=True),
-                     gen_cfg.model_and_spec(force=['global_enc'], want_mc=True)]
+                     gen_cfg.model_and_spec(force=['global_enc'], want_mc=True),
+                     gen_cfg.model_and_spec(force=['repeat_ns', 'many_ports'], want_mixed=True),
+                     # inout formals on out events (accepted by the parser): compile-only oracle
+                     gen_cfg.model_and_spec(force=['out_inout', 'many_requires'], want_mixed='MS')]
 
 
 def with_order(base):
@@ -316,8 +321,9 @@ def run(ctx):
         return
     from vf.draw import draw_stratified
     from vf.runner import load_regress
-    cases = load_regress(ctx.prop, name) + draw_stratified(strata(), 20 if ctx.quick else 300,
-                                                           ctx.seed, wrap=with_order)
+    cases = load_regress(ctx.prop, name) + gen_cfg.alternate_histories(
+        draw_stratified(strata(), 20 if ctx.quick else 300, ctx.seed, wrap=with_order),
+        ('edited', 'origin', 'semantics', 'plain'))
     for c in cases:
         ctx.record(c, nontrivial(c), labels(c))
     run_cases(ctx, name, cases, check_case)
